@@ -42,6 +42,19 @@
 #endif
 #ifdef CMI_VERIF_ASAN
 extern void __asan_unpoison_memory_region(void const volatile *addr, size_t size);
+extern void __sanitizer_finish_switch_fiber(void *fake_stack_save,
+                                            const void **bottom_old,
+                                            size_t *size_old);
+
+/*
+ * A new coroutine does not return through cmi_coroutine_transfer the first time
+ * it gets control, so the fiber switch is completed here before its function runs.
+ */
+static void *cmi_verif_entry_shim(struct cmi_coroutine *cp, void *arg)
+{
+    __sanitizer_finish_switch_fiber(NULL, NULL, NULL);
+    return (*cp->cr_function)(cp, arg);
+}
 #endif
 #endif /* CIMBA_VERIF */
 
@@ -199,6 +212,9 @@ void cmi_coroutine_context_init(struct cmi_coroutine *cp)
     /* Place address of coroutine function in R12 */
     stkptr -= 8u;
     *(uint64_t *)stkptr = (uintptr_t)(cp->cr_function);
+#if defined(CIMBA_VERIF) && defined(CMI_VERIF_ASAN)
+    *(uint64_t *)stkptr = (uintptr_t)cmi_verif_entry_shim;
+#endif
 
     /* Place address of coroutine struct in R13 */
     stkptr -= 8u;
